@@ -8,6 +8,7 @@ type tagIncludeNode struct {
 	only              bool
 	filename          string
 	withPairs         map[string]IEvaluator
+	pairOrder         []string // the keys of withPairs in the order they are written
 	ifExists          bool
 }
 
@@ -22,8 +23,9 @@ func (node *tagIncludeNode) Execute(ctx *ExecutionContext, writer TemplateWriter
 	}
 
 	// Put all custom with-pairs into the context
-	for key, value := range node.withPairs {
-		val, err := value.Evaluate(ctx)
+	// (in the order they are written, not in Go's map order)
+	for _, key := range node.pairOrder {
+		val, err := node.withPairs[key].Evaluate(ctx)
 		if err != nil {
 			return err
 		}
@@ -138,6 +140,9 @@ func tagIncludeParser(doc *Parser, start *Token, arguments *Parser) (INodeTag, *
 				return nil, err.updateFromTokenIfNeeded(doc.template, keyToken)
 			}
 
+			if _, has := includeNode.withPairs[keyToken.Val]; !has {
+				includeNode.pairOrder = append(includeNode.pairOrder, keyToken.Val)
+			}
 			includeNode.withPairs[keyToken.Val] = valueExpr
 
 			// Only?
